@@ -300,7 +300,10 @@ class Wcs(Relation):
             'mode': st.sampled_from(['all', 'wcs']),
             'layout': st.sampled_from(['scalar', '1d', '2d']),
             'wcs': st.one_of(W.wcs_specs(), W.wcs_specs(),
-                             st.just({'example': True})),
+                             st.just({'example': True}),
+                             st.tuples(W.wcs_specs(projs=('TAN',)),
+                                       st.sampled_from([1.0, -1.0, 0.5])).map(
+                                 lambda t: dict(t[0], sip=t[1]))),
             'pts': st.lists(st.tuples(st.floats(-300, 300), st.floats(-300, 300)),
                             min_size=4, max_size=8),
         })
@@ -315,6 +318,8 @@ class Wcs(Relation):
         else:
             cr = w['crpix']
             lim = min(300.0, 40.0 / w['scale'])
+            if w.get('sip'):
+                lim = min(lim, 120.0)
         xs = np.array([cr[0] - 1 + max(-lim, min(lim, t[0])) for t in sp['pts']])
         ys = np.array([cr[1] - 1 + max(-lim, min(lim, t[1])) for t in sp['pts']])
         if sp['layout'] == 'scalar':
@@ -327,13 +332,17 @@ class Wcs(Relation):
         sky = p.to_sky(wcs, origin=o, mode=m)
         back = PixCoord.from_sky(sky, wcs, origin=o, mode=m)
         ctx.label('origin:%d' % o, 'mode:' + m, 'layout:' + sp['layout'],
-                  'example' if w.get('example') else W.rot_family(w))
+                  'example' if w.get('example') else W.rot_family(w),
+                  'sip' if w.get('sip') else 'nosip')
         ctx.check(np.shape(back.x) == np.shape(p.x),
                   'wcs | round trip changes the shape',
                   f'{np.shape(back.x)} vs {np.shape(p.x)}')
         dx = np.abs(np.asarray(back.x) - np.asarray(p.x))
         dy = np.abs(np.asarray(back.y) - np.asarray(p.y))
-        ctx.check(np.all(dx <= 1e-6) and np.all(dy <= 1e-6),
+        # with distortions mode='all' inverts the SIP polynomial iteratively
+        # (astropy's own tolerance 1e-4 px)
+        rt_tol = 2e-3 if (w.get('sip') and m == 'all') else 1e-6
+        ctx.check(np.all(dx <= rt_tol) and np.all(dy <= rt_tol),
                   f'wcs origin={o} mode={m} | to_sky/from_sky is not a round trip',
                   lambda: f'max error {max(dx.max(), dy.max())!r} px')
         if sp['layout'] == 'scalar':
@@ -343,6 +352,16 @@ class Wcs(Relation):
             wcs, origin=0, mode=m)
         sep = sky.separation(sky0).arcsec
         scale_as = 3600.0 * (1.0 if w.get('example') else w['scale'])
+        if w.get('sip'):
+            # the two modes really differ for a distorted WCS
+            other = p.to_sky(wcs, origin=o, mode='wcs' if m == 'all' else 'all')
+            far = np.hypot(np.asarray(p.x) - cr[0], np.asarray(p.y) - cr[1]) > 30
+            if np.any(far):
+                ctx.check(np.any(np.atleast_1d(sky.separation(other).arcsec)[
+                    np.atleast_1d(far)] > 1e-3 * scale_as if not w.get(
+                        'example') else True),
+                    'wcs | mode all and wcs give the same sky position for a '
+                    'distorted WCS')
         ctx.check(np.all(sep <= 1e-6 * scale_as),
                   'wcs | origin=1 is not origin=0 shifted by one pixel',
                   lambda: f'max sep {np.max(sep)!r} arcsec')
